@@ -67,6 +67,13 @@ def replay_fault(tag, rec):
                 else:
                     cl.add('C14', 'full_when_all_proven', 'matching' in p and p.get('pulp_status') == 'Optimal',
                            '%s(): keys %s' % (g, p['keys']))
+                    # growth: the timing lines are the virtual time spent in the underlying solves
+                    try:
+                        ts, tt, tm = float(p.get('time_solve_seconds')), float(p.get('time_total_seconds')), float(p.get('time_model_creation_seconds'))
+                        cl.add('X', 'timing_lines_match_clock', abs(ts - rec['elapsed'] / 1e6) < 1e-9 and abs(tt - ts - tm) < 1e-9 and tm == 0.0,
+                               'time_solve %r total %r creation %r, virtual time spent in solves %r' % (ts, tt, tm, rec['elapsed'] / 1e6))
+                    except (TypeError, ValueError):
+                        cl.add('X', 'timing_lines_match_clock', False, 'timing lines unreadable: %s' % p['keys'])
                 if g == 'short' and rec['critsStarted'] >= 0:
                     names = p['optimisations']
                     if all(not n.startswith('?') for n in names):
